@@ -297,6 +297,94 @@ func c08Group(p c08GroupParams) Scenario {
 	}})
 }
 
+// c08AcrossVersion: a request is held under tag t when a Tversion arrives in mid-session
+// (its reply is then suppressed); the new session uses tag t again, twice. The three
+// requests still run one at a time in arrival order, and the two of the new session
+// are answered in that order.
+func c08AcrossVersion(dotu bool, maxpend, P int) Scenario {
+	var s *sess
+	name := fmt.Sprintf("sharedtag across-Tversion maxpend=%d dotu=%v", maxpend, dotu)
+	body := func() {
+		s = newSess(SrvOpt{Msize: 256, Dotu: dotu, Maxpend: maxpend})
+		a := s.prepare("read", 30, 100)
+		b := s.prepare("stat", 31, 100)
+		c := s.prepare("read", 32, 100)
+		gA, gB := vs.NewSem(0), vs.NewSem(0)
+		s.fs.Script[reqKey{0, 100, 0}] = &Action{Gate: gA}
+		s.fs.Script[reqKey{0, 100, 1}] = &Action{Gate: gB}
+		s.c.Send(dotu, a)
+		vs.Idle()
+		ver := "9P2000"
+		if dotu {
+			ver = "9P2000.u"
+		}
+		if r := s.c.Version(256, ver); r == nil || r.Type != wire.Rversion {
+			vs.Fail("Tversion in mid-session answered by %v", r)
+		}
+		s.setupN = len(s.c.Collect())
+		vs.Window(true)
+		s.c.Send(dotu, b)
+		vs.Idle()
+		gA.Release()
+		vs.Idle()
+		s.c.Send(dotu, c)
+		vs.Idle()
+		gB.Release()
+		vs.Idle()
+		vs.Window(false)
+		s.c.Collect()
+	}
+	check := stdCheck("C08", func(x *vs.Exec) *Viol {
+		frames := s.c.Frames[s.setupN:]
+		detail := map[string]any{"wire": strings.Split(framesString(frames), "\n"), "fslog": strings.Split(s.fs.logString(), "\n"), "parked": x.Parked}
+		type iv struct {
+			fid        uint32
+			start, end int64
+		}
+		var ivs []iv
+		for _, e := range s.fs.Log {
+			if e.Conn != 0 || e.Tag != 100 {
+				continue
+			}
+			switch e.Kind {
+			case "call":
+				ivs = append(ivs, iv{fid: e.Fid, start: e.Seq, end: 1 << 62})
+			case "resp":
+				for i := range ivs {
+					if ivs[i].end == 1<<62 && e.Occ == i {
+						ivs[i].end = e.Seq
+					}
+				}
+			}
+		}
+		if len(ivs) != 3 {
+			return &Viol{Sig: "C08/tag-group-not-all-executed/across-version", Msg: fmt.Sprintf("%d of 3 requests under the tag reached the implementation\n%s\nparked: %+v", len(ivs), framesString(frames), x.Parked), Detail: detail}
+		}
+		for i, v := range ivs {
+			if v.fid != uint32(30+i) {
+				return &Viol{Sig: "C08/tag-group-execution-order/across-version", Msg: fmt.Sprintf("same-tag requests were executed out of arrival order: position %d ran the request on fid %d\n%s", i, v.fid, s.fs.logString()), Detail: detail}
+			}
+			if i > 0 && ivs[i-1].end > v.start {
+				return &Viol{Sig: "C08/tag-group-overlap/across-version", Msg: fmt.Sprintf("the request on fid %d started (seq %d) before its predecessor under the same tag had finished (seq %d): a Tversion in between does not make them independent\n%s", v.fid, v.start, ivs[i-1].end, s.fs.logString()), Detail: detail}
+			}
+		}
+		var order []string
+		for _, f := range frames {
+			if f.Msg == nil {
+				return &Viol{Sig: "C08/malformed-frame", Msg: f.Err, Detail: detail}
+			}
+			if f.Msg.Tag == 100 {
+				order = append(order, wire.Names[f.Msg.Type])
+			}
+		}
+		if got := strings.Join(order, ","); got != "Rstat,Rread" {
+			return &Viol{Sig: "C08/tag-group-reply-order/across-version", Msg: fmt.Sprintf("the two requests of the new session under tag 100 (Tstat then Tread) were answered as [%s]\n%s", got, framesString(frames)), Detail: detail}
+		}
+		return nil
+	}, nil)
+	return vsScenario(&VsSpec{Name: name, Body: body, Check: check, P: P})
+}
+
 func subsets(n int) [][]int {
 	var out [][]int
 	for m := 1; m < (1<<n)-1; m++ {
@@ -372,6 +460,7 @@ func c08Scenarios(tier string) []Scenario {
 		out = append(out, c08Group(c08GroupParams{Group: 2, FirstGate: false, Others: 0, Maxpend: 1, Split: true, P: 2}))
 		out = append(out, c08Group(c08GroupParams{Group: 3, FirstGate: true, Others: 2, Maxpend: 2, P: 1}))
 		out = append(out, c08Group(c08GroupParams{Group: 3, FirstGate: false, Others: 0, Maxpend: 0, Dotu: true, Split: true, P: 1}))
+		out = append(out, c08AcrossVersion(false, 0, 2), c08AcrossVersion(true, 2, 2))
 		return out
 	}
 	i := 0
@@ -407,6 +496,9 @@ func c08Scenarios(tier string) []Scenario {
 			}
 		}
 	}
+	for _, mp := range []int{0, 1, 2} {
+		out = append(out, c08AcrossVersion(mp%2 == 0, mp, 3))
+	}
 	out = append(out, c08Group(c08GroupParams{Group: 8, FirstGate: true, Others: 3, Maxpend: 0, P: 0}))
 	out = append(out, c08Group(c08GroupParams{Group: 5, FirstGate: false, Others: 2, Maxpend: 2, Split: true, P: 1}))
 	return out
@@ -415,7 +507,7 @@ func c08Scenarios(tier string) []Scenario {
 func init() {
 	register(&Property{ID: "C08", Level: "model_checking",
 		Technique: "stateless model checking of the real server under a controlled scheduler (all schedules within a preemption bound); blocking decided at quiescent states, no clocks",
-		Rule:      "every schedule with at most P preemptions per scenario: (a) every non-empty proper subset of n requests parked in the implementation, every release order, one or two connections, Maxpend 0..2, plus implementations blocked inside FidDestroy, plus a first connection whose client stops reading - at the quiescent state reached while the subset is parked every other request must have its reply; (b) groups of 2..8 requests under one tag mixed with other tags - start/finish intervals in the implementation log disjoint and in arrival order, replies in that order. distinct = distinct per-object operation orders",
+		Rule:      "every schedule with at most P preemptions per scenario: (a) every non-empty proper subset of n requests parked in the implementation, every release order, one or two connections, Maxpend 0..2, plus implementations blocked inside FidDestroy, plus a first connection whose client stops reading - at the quiescent state reached while the subset is parked every other request must have its reply; (b) groups of 2..8 requests under one tag mixed with other tags - start/finish intervals in the implementation log disjoint and in arrival order, replies in that order; a shared tag used across a Tversion in mid-session (held request, Tversion, two more requests under the tag). distinct = distinct per-object operation orders",
 		Assumptions: []string{"code between two synchronisation operations is atomic (race-free executions)", "transport modelled as an unbounded reliable byte queue", "'delayed' means: not answered in a state where nothing but the blocked requests could still run"},
 		Scenarios:   c08Scenarios, QuickS: 180, ThoroughS: 1500})
 }
